@@ -1052,7 +1052,7 @@ pub fn run(ctx: &CheckCtx) -> CheckResult {
     };
 
     // F1
-    let n1 = if thorough { n / 4 } else { n / 16 };
+    let n1 = if thorough { n / 2 } else { n / 16 };
     let (st, ps) = sweep_seeds(s0, n1, nthreads, deadline);
     exhaustive &= !st.capped;
     fam_rows.push(json!({"family":"every seed of the interval x fixed abstract programs x depth 1..4 x 4 iterations","seeds":n1,"programs":fixed_programs().len(),"cases":st.cases,"executions":st.executions,"matched_executions":st.matched,"complete":!st.capped}));
@@ -1109,7 +1109,7 @@ pub fn run(ctx: &CheckCtx) -> CheckResult {
     phase("F2 all trees", &mut t_phase);
 
     // probability
-    let np = n / 8;
+    let np = if thorough { n / 2 } else { n / 8 };
     let pr = probability(s0, np, nthreads);
     phase("probability bound (model enumeration + seed interval)", &mut t_phase);
     for m in &pr.machinery {
